@@ -67,7 +67,7 @@ Lemma Z_of_digits_dec n : 0 <= n -> exists u, dec_of_Z n = uint_digits u /\ u <>
 Proof.
   intros Hn. unfold dec_of_Z. pose proof (DecimalZ.of_to n) as Hot.
   destruct n as [|p|p]; simpl Z.to_int in *.
-  - exists (Decimal.D0 Decimal.Nil). repeat split; [discriminate|reflexivity].
+  - exists (Decimal.D0 Decimal.Nil). split; [reflexivity|]. split; [discriminate|reflexivity].
   - exists (Pos.to_uint p). split; [reflexivity|]. split; [apply DecimalPos.Unsigned.to_uint_nonnil|].
     unfold Z_of_digits. fold (digits_acc (uint_digits (Pos.to_uint p)) 0). rewrite digits_acc_zero.
     simpl in Hot. unfold Z.of_uint in Hot. exact Hot.
@@ -88,6 +88,16 @@ Proof.
   repeat (destruct Hc as [->|Hc]; [reflexivity|]). subst. reflexivity.
 Qed.
 
+Lemma unquote_esc fuel e x r :
+  (e = 34 /\ x = 34) \/ (e = 92 /\ x = 92) \/ (e = 98 /\ x = 8) \/ (e = 102 /\ x = 12) \/
+  (e = 110 /\ x = 10) \/ (e = 114 /\ x = 13) \/ (e = 116 /\ x = 9) ->
+  unquote_body (S fuel) (92 :: e :: r) = do xr <- unquote_body fuel r; Ok (x :: fst xr, snd xr).
+Proof. intros [[-> ->]|[[-> ->]|[[-> ->]|[[-> ->]|[[-> ->]|[[-> ->]|[-> ->]]]]]]]; reflexivity. Qed.
+
+Lemma unquote_lit fuel c r : (c =? 34) = false -> (c =? 92) = false -> (c <? 32) = false ->
+  unquote_body (S fuel) (c :: r) = do xr <- unquote_body fuel r; Ok (c :: fst xr, snd xr).
+Proof. intros H1 H2 H3. cbn [unquote_body]. rewrite H1, H2, H3. reflexivity. Qed.
+
 Lemma unquote_body_quote k : forall fuel rest,
   key_ok k = true -> (length k < fuel)%nat ->
   unquote_body fuel (flat_map escape_char k ++ 34 :: rest) = Ok (k, rest).
@@ -98,21 +108,27 @@ Proof.
     simpl in Hk. apply andb_true_iff in Hk as [Hc Hk]. apply andb_true_iff in Hc as [Hc0 Hc1].
     apply Z.leb_le in Hc0, Hc1. simpl in Hf.
     assert (Hrec : unquote_body fuel (flat_map escape_char k ++ 34 :: rest) = Ok (k, rest)) by (apply IH; [exact Hk|lia]).
-    simpl flat_map. unfold escape_char.
+    cbn [flat_map]. rewrite <- app_assoc.
+    assert (Hesc : escape_char c =
+                   if c =? 34 then [92; 34] else if c =? 92 then [92; 92] else if c =? 8 then [92; 98]
+                   else if c =? 12 then [92; 102] else if c =? 10 then [92; 110] else if c =? 13 then [92; 114]
+                   else if c =? 9 then [92; 116]
+                   else if c <? 32 then [92; 117; 48; 48; hexdigit (c / 16); hexdigit (c mod 16)] else [c]) by reflexivity.
+    rewrite Hesc. clear Hesc.
     destruct (c =? 34) eqn:E34.
-    { apply Z.eqb_eq in E34. subst c. cbn [app]. cbn [unquote_body]. rewrite Hrec. reflexivity. }
+    { apply Z.eqb_eq in E34. subst c. cbn [app]. rewrite (unquote_esc fuel _ 34) by tauto. rewrite Hrec. reflexivity. }
     destruct (c =? 92) eqn:E92.
-    { apply Z.eqb_eq in E92. subst c. cbn [app]. cbn [unquote_body]. rewrite Hrec. reflexivity. }
+    { apply Z.eqb_eq in E92. subst c. cbn [app]. rewrite (unquote_esc fuel _ 92) by tauto. rewrite Hrec. reflexivity. }
     destruct (c =? 8) eqn:E8.
-    { apply Z.eqb_eq in E8. subst c. cbn [app]. cbn [unquote_body]. rewrite Hrec. reflexivity. }
+    { apply Z.eqb_eq in E8. subst c. cbn [app]. rewrite (unquote_esc fuel _ 8) by tauto. rewrite Hrec. reflexivity. }
     destruct (c =? 12) eqn:E12.
-    { apply Z.eqb_eq in E12. subst c. cbn [app]. cbn [unquote_body]. rewrite Hrec. reflexivity. }
+    { apply Z.eqb_eq in E12. subst c. cbn [app]. rewrite (unquote_esc fuel _ 12) by tauto. rewrite Hrec. reflexivity. }
     destruct (c =? 10) eqn:E10.
-    { apply Z.eqb_eq in E10. subst c. cbn [app]. cbn [unquote_body]. rewrite Hrec. reflexivity. }
+    { apply Z.eqb_eq in E10. subst c. cbn [app]. rewrite (unquote_esc fuel _ 10) by tauto. rewrite Hrec. reflexivity. }
     destruct (c =? 13) eqn:E13.
-    { apply Z.eqb_eq in E13. subst c. cbn [app]. cbn [unquote_body]. rewrite Hrec. reflexivity. }
+    { apply Z.eqb_eq in E13. subst c. cbn [app]. rewrite (unquote_esc fuel _ 13) by tauto. rewrite Hrec. reflexivity. }
     destruct (c =? 9) eqn:E9.
-    { apply Z.eqb_eq in E9. subst c. cbn [app]. cbn [unquote_body]. rewrite Hrec. reflexivity. }
+    { apply Z.eqb_eq in E9. subst c. cbn [app]. rewrite (unquote_esc fuel _ 9) by tauto. rewrite Hrec. reflexivity. }
     destruct (c <? 32) eqn:E32.
     + apply Z.ltb_lt in E32. cbn [app].
       change (unquote_body (S fuel) (92 :: 117 :: 48 :: 48 :: hexdigit (c / 16) :: hexdigit (c mod 16) :: flat_map escape_char k ++ 34 :: rest))
@@ -128,7 +144,7 @@ Proof.
       replace (c / 16 * 16 + c mod 16) with c by (rewrite Z.mul_comm; apply Z.div_mod; lia).
       replace (c <? 32) with true by (symmetry; apply Z.ltb_lt; exact E32).
       rewrite Hrec. reflexivity.
-    + cbn [app]. cbn [unquote_body]. rewrite E34, E92, E32, Hrec. reflexivity.
+    + cbn [app]. rewrite (unquote_lit fuel c _ E34 E92 E32), Hrec. reflexivity.
 Qed.
 
 Lemma unquote_quote k rest : key_ok k = true -> unquote (quote k ++ rest) = Ok (k, rest).
@@ -196,6 +212,9 @@ Lemma close_cases close : close = 93 \/ close = 41 \/ close = 125 ->
   (44 =? close) = false /\ follow_ok [close].
 Proof. intros [->|[->| ->]]; split; try reflexivity; simpl; auto. Qed.
 
+Lemma sep_concat_cons2 (sep p q : bytes) r : sep_concat sep (p :: q :: r) = p ++ sep ++ sep_concat sep (q :: r).
+Proof. reflexivity. Qed.
+
 Lemma parse_list_ok sub close : close = 93 \/ close = 41 \/ close = 125 ->
   forall l fuel rest, l <> [] -> Forall (parses sub) l -> (length l <= fuel)%nat ->
   parse_list sub fuel close (sep_concat p_comma (map type_tostring l) ++ close :: rest) = Ok (l, rest).
@@ -207,7 +226,7 @@ Proof.
   - cbn [map sep_concat parse_list]. rewrite (Ht (close :: rest)).
     + cbn [bind snd fst]. rewrite Z.eqb_refl. reflexivity.
     + simpl. destruct Hc as [->|[->| ->]]; auto.
-  - cbn [map]. cbn [sep_concat].
+  - cbn [map]. rewrite sep_concat_cons2.
     change (map type_tostring (t2 :: l)) with (type_tostring t2 :: map type_tostring l) in IH.
     rewrite <- !app_assoc. cbn [parse_list].
     rewrite (Ht (p_comma ++ sep_concat p_comma (type_tostring t2 :: map type_tostring l) ++ close :: rest)) by (simpl; auto).
@@ -261,7 +280,7 @@ Proof.
     rewrite (unquote_quote k _ Hk1). cbn [bind snd fst]. rewrite strip_prefix_app.
     rewrite (Ht (close :: rest)) by (simpl; destruct Hc as [->| ->]; auto).
     cbn [bind snd fst]. rewrite Z.eqb_refl. reflexivity.
-  - cbn [map]. cbn [sep_concat fst snd]. rewrite <- !app_assoc. cbn [parse_fields].
+  - cbn [map]. rewrite sep_concat_cons2. cbn [fst snd]. rewrite <- !app_assoc. cbn [parse_fields].
     rewrite (unquote_quote k _ Hk1). cbn [bind snd fst]. rewrite strip_prefix_app.
     rewrite Ht by (simpl; auto).
     cbn [bind snd fst]. change (p_comma ++ ?x) with (44 :: 32 :: x). cbv iota beta.
